@@ -185,7 +185,9 @@ def main(argv=None):
         try:
             fn()
         except Violation as v:
-            probe_failures.append({'key': key, 'what': '%s (%s)' % (what, v.what),
+            # the key names the probe *and* the oracle clause that failed, so that a
+            # different failure inside the same probe is a different finding
+            probe_failures.append({'key': '%s/%s' % (key, v.key), 'what': '%s [probe: %s]' % (v.what, what),
                                    'case': {'probe': key}, 'spec': {'probe': key}})
         except Exception:
             traceback.print_exc()
